@@ -41,7 +41,7 @@ def build_module(workdir, units, undefs=(), extra_defs=(), opt=None, extra_srcs=
             raise IRBuildError("clang -E failed for %s: %s" % (src, r.stdout.decode(errors="replace")[-600:]))
         text = open(base + ".i", errors="replace").read()
         try:
-            res, n = asm2c.rewrite(text)
+            res, n = asm2c.rewrite(text, strict=False)
         except asm2c.Asm2CError as e:
             raise IRBuildError("asm2c: %s: %s" % (src, e))
         with open(base + ".a2c.i", "w") as f:
